@@ -203,6 +203,20 @@ def _rs_str_match(rs: RustProgram, file: str, fname: str) -> tuple[dict[str, Any
     return out, default
 
 
+def _is_membership_if(n: ast.AST) -> bool:
+    return (isinstance(n, ast.If) and isinstance(n.test, ast.Compare) and len(n.test.ops) == 1
+            and isinstance(n.test.ops[0], ast.In))
+
+
+def _mentions_outside_membership_ifs(n: ast.AST, name: str) -> bool:
+    """`name` is used in `n` outside any nested `if x in <collection>:` (those are judged on their own)."""
+    if _is_membership_if(n):
+        return False
+    if isinstance(n, ast.Name) and n.id == name:
+        return True
+    return any(_mentions_outside_membership_ifs(c, name) for c in ast.iter_child_nodes(n))
+
+
 def check_registers(ctx: Ctx, py: PyProgram, rs: RustProgram) -> None:
     emu = py.module(isa.EMU_PY)
     sizes = {k.name: v for k, v in py.value(isa.EMU_PY, "REGISTER_SIZE").items()}
@@ -217,10 +231,22 @@ def check_registers(ctx: Ctx, py: PyProgram, rs: RustProgram) -> None:
         fn = py.func(isa.EMU_PY, f"Registers.{meth}")
         found = None
         for n in ast.walk(fn):
-            if isinstance(n, ast.Compare) and len(n.ops) == 1 and isinstance(n.ops[0], ast.In) and isinstance(n.comparators[0], ast.Tuple):
-                names = {attr_chain(e).split(".")[-1] for e in n.comparators[0].elts if attr_chain(e)}
-                if "PC" in names:
-                    found = names
+            # `if reg in <collection>:` guarding a use of PC_MASK; the collection may be a literal
+            # or a module/class constant
+            if not (isinstance(n, ast.If) and isinstance(n.test, ast.Compare) and len(n.test.ops) == 1
+                    and isinstance(n.test.ops[0], ast.In)):
+                continue
+            if not any(_mentions_outside_membership_ifs(b, "PC_MASK") for b in n.body):
+                continue
+            coll = n.test.comparators[0]
+            if isinstance(coll, ast.Attribute) and isinstance(coll.value, ast.Name) and coll.value.id in ("self", "cls"):
+                coll = ast.Attribute(value=ast.Name(id="Registers"), attr=coll.attr, lineno=0)
+            try:
+                members = ev.eval(coll)
+                names = {m.name for m in members}
+            except Exception as e:  # noqa: BLE001
+                raise AnalysisError(f"Registers.{meth}: PC_MASK register collection not evaluable: {e}")
+            found = names if found is None else found | names
         ctx.need(found is not None, f"Registers.{meth}: PC_MASK register tuple not found")
         masked_sets.append(found)
     if masked_sets[0] != masked_sets[1]:
